@@ -16,6 +16,17 @@ import (
 
 var wiringReviewed = map[string]string{}
 
+// wiringFrozen: {F, G} — G is built on F at construction (confirmed by reading the constructors)
+var wiringFrozen = [][2]string{
+	{"base/bsupport.logParsingReceiverSink.inputCounter", "base/bsupport.logParsingReceiverSink.parser"},
+	{"buffer/hybridbuffer.bufferer.inputChannel", "buffer/hybridbuffer.bufferer.feeder"},
+	{"buffer/hybridbuffer.bufferer.inputClosed", "buffer/hybridbuffer.bufferer.feeder"},
+	{"input/tcplistener.tcpLineListener.taskCounter", "input/tcplistener.tcpLineListener.stopped"},
+	{"output/datadog.intermediateChunk.writeBuffer", "output/datadog.intermediateChunk.compressor"},
+	{"output/fluentdforward.intermediateChunk.writeBuffer", "output/fluentdforward.intermediateChunk.compressor"},
+	{"output/fluentdforward.chunkEncoder.msgpackEncoderBuffer", "output/fluentdforward.chunkEncoder.msgpackEncoder"},
+}
+
 func init() {
 	register("C11", "C11.R9", ruleWiringF14)
 	register("C10", "C11.R9", ruleWiringF14)
@@ -88,12 +99,42 @@ func ruleWiringF14(c *Ctx) {
 					if mi, ok := av.(*ssa.MakeInterface); ok {
 						av = strip(mi.X)
 					}
-					if av == strip(a.st.Val) {
+					same := av == strip(a.st.Val)
+					if u, ok := av.(*ssa.UnOp); ok && !same {
+						// the field read back from the object under construction: G = New(obj.F)
+						if fa, ok := u.X.(*ssa.FieldAddr); ok && fa.X == a.base && fieldName(fa.X.Type(), fa.Field) == a.field {
+							same = true
+						}
+					}
+					if same {
 						helper := "?"
 						if f := cl.Common().StaticCallee(); f != nil {
 							helper = extName(f)
 						}
 						pairs = append(pairs, wiredPair{a.field, b.field, fn, helper, a.st})
+					}
+				}
+			}
+		}
+	}
+	// The pairs confirmed by reading the code are frozen: a change that breaks the wiring in the one place where it is made
+	// would otherwise remove the pair from the enumeration together with the rule instance (a pair found on the tree but
+	// not listed here is checked all the same).
+	have := map[string]bool{}
+	for _, p := range pairs {
+		have[p.f+"→"+p.g] = true
+	}
+	for _, fz := range wiringFrozen {
+		if have[fz[0]+"→"+fz[1]] {
+			continue
+		}
+		// the constructor: a function storing G into a fresh object
+		for _, fn := range c.P.universe {
+			for _, st := range storesToField(fn, fz[1]) {
+				if fa, ok := strip(st.Addr).(*ssa.FieldAddr); ok {
+					if _, fresh := fa.X.(*ssa.Alloc); fresh && !have[fz[0]+"→"+fz[1]] {
+						have[fz[0]+"→"+fz[1]] = true
+						pairs = append(pairs, wiredPair{fz[0], fz[1], fn, "(no longer a call on " + fz[0] + ")", st})
 					}
 				}
 			}
@@ -130,6 +171,78 @@ func ruleWiringF14(c *Ctx) {
 				badPos = st
 			}
 		}
+		// the other half: G is never set to something that was not built on (or re-armed with) the same object's F — a
+		// helper taken from elsewhere (a cache, a captured variable, a parameter) refers to whatever it was built on
+		for _, fn := range c.P.universe {
+			for _, st := range storesToField(fn, p.g) {
+				fa := strip(st.Addr).(*ssa.FieldAddr)
+				isF := func(v ssa.Value) bool {
+					v = strip(v)
+					if mi, ok := v.(*ssa.MakeInterface); ok {
+						v = strip(mi.X)
+					}
+					if u, ok := v.(*ssa.UnOp); ok {
+						if fb, ok := u.X.(*ssa.FieldAddr); ok && fb.X == fa.X && fieldName(fb.X.Type(), fb.Field) == p.f {
+							return true
+						}
+					}
+					for _, sf := range storesToField(fn, p.f) {
+						if fb, ok := strip(sf.Addr).(*ssa.FieldAddr); ok && fb.X == fa.X && strip(sf.Val) == v {
+							return true
+						}
+					}
+					return false
+				}
+				v := strip(st.Val)
+				for i := 0; i < 4; i++ {
+					switch x := v.(type) {
+					case *ssa.Extract:
+						v = strip(x.Tuple)
+					case *ssa.MakeInterface:
+						v = strip(x.X)
+					case *ssa.TypeAssert:
+						v = strip(x.X)
+					}
+				}
+				wired := false
+				if k, ok := v.(*ssa.Const); ok && k.IsNil() {
+					wired = true
+				}
+				if cl, ok := v.(*ssa.Call); ok {
+					for _, a := range cl.Common().Args {
+						if isF(a) {
+							wired = true
+						}
+					}
+				}
+				if !wired {
+					// re-armed in the same function: a call on the stored value that is given the object's F
+					for _, s := range callsIn(fn) {
+						cc := s.Common()
+						onV := false
+						if cc.IsInvoke() && strip(cc.Value) == strip(st.Val) {
+							onV = true
+						}
+						for _, a := range cc.Args {
+							if strip(a) == strip(st.Val) {
+								onV = true
+							}
+						}
+						if !onV {
+							continue
+						}
+						for _, a := range cc.Args {
+							if isF(a) {
+								wired = true
+							}
+						}
+					}
+				}
+				c.check(wired, "C11.R9", fn, fmt.Sprintf("%s is built on this object's %s wherever it is set", p.g, p.f), st.Pos(),
+					"the stored value is the result of a call that received the same object's "+p.f+" (or nil, or is re-armed with it in the same function)",
+					fmt.Sprintf("%s is set to a value that was not built on this object's %s (a cached, captured or passed-in helper keeps referring to the value it was created with): what is written through %s does not arrive in %s", p.g, p.f, p.g, p.f))
+			}
+		}
 		construct := fmt.Sprintf("%s stays the value %s was built on", p.f, p.g)
 		if len(bad) == 0 {
 			c.ok("C11.R9", p.ctor, construct, p.pos.Pos(), fmt.Sprintf("%s = %s(%s) in %s; %s is stored nowhere else", p.g, p.helper, p.f, anchorName(p.ctor), p.f))
@@ -147,6 +260,8 @@ func ruleWiringF14(c *Ctx) {
 // loaded from a field, that field must be stored only in constructors. A fixed-size array field is always fine.
 func init() {
 	register("C17", "C17.R6", ruleStableAddrF15)
+	register("C09", "C17.R6", ruleStableAddrF15)
+	register("C19", "C17.R6", ruleStableAddrF15)
 }
 
 func ruleStableAddrF15(c *Ctx) {
@@ -159,19 +274,39 @@ func ruleStableAddrF15(c *Ctx) {
 	var slices []kept
 	for _, fn := range c.P.universe {
 		eachInstr(fn, func(in ssa.Instruction) {
-			st, ok := in.(*ssa.Store)
-			if !ok {
-				return
+			// kept: stored into a field (of a fresh or existing object) or a global — not into a local variable —, or
+			// handed to the caller: returned, or bound into a returned / stored method value (`return tab[i].Method`)
+			var ia *ssa.IndexAddr
+			elemAddr := func(v ssa.Value) *ssa.IndexAddr {
+				v = strip(v)
+				if mc, ok := v.(*ssa.MakeClosure); ok {
+					for _, b := range mc.Bindings {
+						if x, ok := strip(b).(*ssa.IndexAddr); ok {
+							return x
+						}
+					}
+					return nil
+				}
+				x, _ := v.(*ssa.IndexAddr)
+				return x
 			}
-			ia, ok := strip(st.Val).(*ssa.IndexAddr)
-			if !ok {
-				return
+			switch x := in.(type) {
+			case *ssa.Store:
+				switch x.Addr.(type) {
+				case *ssa.FieldAddr, *ssa.Global:
+					ia = elemAddr(x.Val)
+				}
+			case *ssa.Return:
+				if fn.Parent() != nil {
+					return // a function literal's result stays with the enclosing function
+				}
+				for _, r := range x.Results {
+					if a := elemAddr(r); a != nil {
+						ia = a
+					}
+				}
 			}
-			// kept: stored into a field (of a fresh or existing object) or a global — not into a local variable
-			switch a := st.Addr.(type) {
-			case *ssa.FieldAddr, *ssa.Global:
-				_ = a
-			default:
+			if ia == nil {
 				return
 			}
 			nKept++
